@@ -43,6 +43,9 @@ def schemaWith (extra : List (Cls × Cls)) : Schema :=
 def parseDefs (xs : List Sexp) : List (Cls × Cls) :=
   xs.filterMap fun x => match x with
     | .list [.atom "defclass", c, p] => do pure ((← c.asNat?), (← p.asNat?))
+    -- `(defclassn c p n)`: the same, the Python class is called `Same<n>` (several classes may share that name; for
+    -- the model a class is its number)
+    | .list [.atom "defclassn", c, p, _] => do pure ((← c.asNat?), (← p.asNat?))
     | _ => none
 
 /-- `(relchurn o n c f t)`: `n` instances of class `c`, labelled `o … o+n-1`, created back to back; each asserts field
@@ -62,6 +65,7 @@ def parseOp (pos : Nat) : Sexp → Option (List Op)
   | .list [.atom "drop", o] => do pure [.drop (← o.asNat?)]
   | .list [.atom "sweep"] => some [.sweep]
   | .list [.atom "defclass", _, _] => some []
+  | .list [.atom "defclassn", _, _, _] => some []
   | .list [.atom "qstart", _, _] => some []
   | .list [.atom "qnext", _] => some []
   | .list [.atom "churn", o, n, c] => do pure (churnOps (← o.asNat?) (← n.asNat?) (← c.asNat?))
@@ -145,6 +149,15 @@ inductive XOp where
   | roleset (f : Fld) (o g : Nat)
   | newholder (o r : Nat)
   | clone (o s : Nat) (deep : Bool)
+  /-- `new = C(o, f=donor.f)`: a new instance of the donor's class constructed with the donor's CONTAINER for the managed
+  field `f` (what `dataclasses.replace` does); the setter re-adds every item for the new owner; the harness then drops the
+  donor. The container is shared with the donor as long as the donor lives — that aliasing is not modelled: when the
+  donor survives the drop, model and harness both answer `skip` (a marker in the ghost log `out`). -/
+  | adopt (o s : Nat) (f : Fld)
+
+/-- key of the marker "a container is shared by two live instances" in the ghost log -/
+def aliasMark : Nat := 999999
+def aliased (h : Heap) : Bool := h.out.any (fun o => o.key == aliasMark)
 
 def addRef (h : Heap) (a b : Obj) : Heap := { h with fields := h.fields ++ [⟨a, 9, b⟩] }
 def refOf (h : Heap) (a : Obj) : Option Obj := (h.fields.find? (fun e => e.owner == a && e.fld == 9)).map (·.val)
@@ -212,6 +225,17 @@ def stepXS' (S : Schema) (q : Quirks) (st : DSt) : XOp → DSt
         | none => st
       else st
 
+  | .adopt o s f =>
+    if st.err || st.h.used.contains o then st else
+    match st.h.find s with
+    | none => st
+    | some x =>
+      let items := (st.h.fields.filter (fun e => e.owner == s && e.fld == f)).map (·.val)
+      let st := stepS S q st (.new o x.cls 0)
+      let st := items.foldl (fun st t => stepS S q st (.set f o t)) st
+      let st := stepS S q st (.drop s)
+      if st.err || !st.h.isLive s then st else { st with h := { st.h with out := st.h.out ++ [⟨aliasMark, [], []⟩] } }
+
 def runXS (S : Schema) (q : Quirks) (st : DSt) (ops : List XOp) : DSt := ops.foldl (stepXS' S q) st
 
 def specStepX (S : Schema) (q : Quirks) (s : Spec) : XOp → Spec
@@ -254,6 +278,17 @@ def specStepX (S : Schema) (q : Quirks) (s : Spec) : XOp → Spec
         | none => s
       else s
 
+  | .adopt o t f =>
+    if s.h.used.contains o then s else
+    match s.h.find t with
+    | none => s
+    | some x =>
+      let items := (s.h.fields.filter (fun e => e.owner == t && e.fld == f)).map (·.val)
+      let s := specStepS S q s (.new o x.cls 0)
+      let s := items.foldl (fun s v => specStepS S q s (.set f o v)) s
+      let s := specStepS S q s (.drop t)
+      if !s.h.isLive t then s else { s with h := { s.h with out := s.h.out ++ [⟨aliasMark, [], []⟩] } }
+
 def specRunX (S : Schema) (q : Quirks) (ops : List XOp) : Spec := ops.foldl (specStepX S q) Spec.init
 
 def parseXOne (pos : Nat) (x : Sexp) : Option (List XOp) :=
@@ -264,6 +299,7 @@ def parseXOne (pos : Nat) (x : Sexp) : Option (List XOp) :=
   | .list [.atom "head", o, g] => do pure [XOp.roleset 6 (← o.asNat?) (← g.asNat?)]
   | .list [.atom "manage", o, g] => do pure [XOp.roleset 7 (← o.asNat?) (← g.asNat?)]
   | .list [.atom "newholder", o, r] => do pure [XOp.newholder (← o.asNat?) (← r.asNat?)]
+  | .list [.atom "adopt", o, s, f] => do pure [XOp.adopt (← o.asNat?) (← s.asNat?) (← f.asNat?)]
   | .list [.atom "clone", o, s, .atom how] => do
       pure [XOp.clone (← o.asNat?) (← s.asNat?) (how != "copy")]
   -- a query over the long-lived type that reaches the transient instances through `flatten(root.knows)`:
@@ -285,6 +321,56 @@ def parseX (xs : List Sexp) : Option (List XOp) :=
       let b ← go (pos + 1) r
       pure (a ++ b)
   go 0 xs
+
+/-! ### stepwise (lazily consumed) evaluations — driver level, shared by C13 and C20 (see `Drive/C13.lean`) -/
+
+structure Iter where
+  key : Nat
+  cls : Cls
+  started : Bool := false
+  walk : List Cls := []
+  cur : List Obj := []
+  yielded : List Obj := []
+  expected : List Obj := []
+  /-- 0 open, 1 stop, 2 raised -/
+  status : Nat := 0
+
+def iterKey (k : Nat) : Nat := 500000 + k
+
+def setCache (st : DSt) (k : Nat) (ys : List Obj) : DSt :=
+  { st with h := { st.h with qvars := st.h.qvars.map (fun v =>
+      if v.key == iterKey k then { v with cache := some ys.eraseDups } else v) } }
+
+/-- one `next()`; `snap` = the repaired behaviour (every class list copied when the evaluation starts, dead
+instances skipped) -/
+def advance (q : Quirks) (snap : Bool) (S : Schema) (Sfinal : Schema) (st : DSt) (it : Iter) : DSt × Iter :=
+  if it.status != 0 then (st, it) else
+  let (st, it) :=
+    if it.started then (st, it)
+    else
+      let st := stepS Sfinal q st .sweep
+      let classes := if q.dupSubclasses then S.below it.cls else (S.below it.cls).eraseDups
+      let exp := st.h.expected S it.cls
+      if snap then
+        (st, { it with started := true, walk := [], expected := exp,
+                       cur := classes.flatMap fun c => (st.g.byClass.filter (fun w => w.cls == c)).map (·.obj) })
+      else (st, { it with started := true, walk := classes, expected := exp })
+  let rec go (fuel : Nat) (it : Iter) : DSt × Iter :=
+    match fuel with
+    | 0 => (st, it)
+    | fuel + 1 =>
+      match it.cur with
+      | o :: rest =>
+        if st.h.isLive o then
+          let it := { it with cur := rest, yielded := it.yielded ++ [o] }
+          (setCache st it.key it.yielded, it)
+        else if snap then go fuel { it with cur := rest }
+        else (st, { it with cur := rest, status := 2 })
+      | [] =>
+        match it.walk with
+        | c :: w => go fuel { it with walk := w, cur := (st.g.byClass.filter (fun x => x.cls == c)).map (·.obj) }
+        | [] => (st, { it with status := 1 })
+  go (it.walk.length + it.cur.length + st.g.byClass.length + 2) it
 
 /-! canonical printing -/
 
